@@ -253,7 +253,7 @@ fn unit_body(part: &'static dyn Part, prop: &'static str, tier: Tier, base_seed:
                     sigs.insert(rep.sig);
                     ilogs.insert(rep.ilog_hash);
                 }
-                u.sim_ns += rep.sim_ns;
+                u.sim_ns = u.sim_ns.saturating_add(rep.sim_ns);
                 u.steps += rep.steps;
                 if want_hashes {
                     u.hashes.push((idx, rep.log_hash));
@@ -388,8 +388,8 @@ fn merge(a: &mut UnitResult, b: UnitResult) {
     a.sigs.extend(b.sigs);
     a.ilogs.extend(b.ilogs);
     a.nontrivial += b.nontrivial;
-    a.sim_ns += b.sim_ns;
-    a.steps += b.steps;
+    a.sim_ns = a.sim_ns.saturating_add(b.sim_ns);
+    a.steps = a.steps.saturating_add(b.steps);
     a.violations.extend(b.violations);
     if a.samples.len() < 3 {
         a.samples.extend(b.samples);
@@ -752,7 +752,7 @@ fn write_evidence(def: &CheckDef, o: &BatchOpts, per_part: &[UnitResult], wall: 
         evaluations += u.evaluations;
         distinct += sigs.len() as u64;
         interleavings += il.len() as u64;
-        sim_ns += u.sim_ns;
+        sim_ns = sim_ns.saturating_add(u.sim_ns);
         for (k, v) in &u.counters {
             if k.starts_with("fault.") {
                 *faults.entry(k.clone()).or_insert(0) += v;
